@@ -116,6 +116,7 @@ struct Cx<'tcx> {
     tcx: TyCtxt<'tcx>,
     env: TypingEnv<'tcx>,
     detail: bool,
+    body: Cell<Option<&'tcx Body<'tcx>>>,
 }
 
 fn sp_line(tcx: TyCtxt<'_>, sp: Span) -> (String, usize) {
@@ -181,10 +182,30 @@ fn ty_head<'tcx>(tcx: TyCtxt<'tcx>, t: Ty<'tcx>) -> J {
 impl<'tcx> Cx<'tcx> {
     fn place(&self, p: &Place<'tcx>) -> J {
         let mut v = vec![J::n(p.local.as_usize())];
-        for e in p.projection.iter() {
+        let body = self.body.get();
+        for (base, e) in p.iter_projections() {
             v.push(match e {
                 ProjectionElem::Deref => J::s("*"),
-                ProjectionElem::Field(f, _) => J::arr(vec![J::s("f"), J::n(f.as_usize())]),
+                ProjectionElem::Field(f, _) => {
+                    // name of the field when the base is a struct / enum variant
+                    let mut name = J::Null;
+                    if let Some(body) = body {
+                        let r = std::panic::catch_unwind(std::panic::AssertUnwindSafe(|| {
+                            let pty = base.ty(&body.local_decls, self.tcx);
+                            if let ty::Adt(adt, _) = pty.ty.kind() {
+                                let vi = pty.variant_index.unwrap_or(rustc_abi::FIRST_VARIANT);
+                                if adt.is_struct() || adt.is_enum() || adt.is_union() {
+                                    return Some(adt.variant(vi).fields[f].name.to_string());
+                                }
+                            }
+                            None
+                        }));
+                        if let Ok(Some(n)) = r {
+                            name = J::s(n);
+                        }
+                    }
+                    J::arr(vec![J::s("f"), J::n(f.as_usize()), name])
+                }
                 ProjectionElem::Downcast(name, vi) => J::arr(vec![
                     J::s("d"),
                     J::n(vi.as_usize()),
@@ -707,10 +728,10 @@ fn dump<'tcx>(tcx: TyCtxt<'tcx>) {
     let mut n_fail = 0usize;
     let mut failed: Vec<J> = Vec::new();
     for Stored(def, body) in &stored {
-        let body: &Body<'tcx> = unsafe { std::mem::transmute::<&Body<'static>, &Body<'tcx>>(body) };
+        let body: &'tcx Body<'tcx> = unsafe { std::mem::transmute::<&Body<'static>, &'tcx Body<'tcx>>(body) };
         let path = tcx.def_path_str(def.to_def_id());
         let detail = !no_detail.iter().any(|p| !p.is_empty() && path.starts_with(p.as_str()));
-        let cx = Cx { tcx, env: TypingEnv::post_analysis(tcx, def.to_def_id()), detail };
+        let cx = Cx { tcx, env: TypingEnv::post_analysis(tcx, def.to_def_id()), detail, body: Cell::new(Some(body)) };
         let r = std::panic::catch_unwind(std::panic::AssertUnwindSafe(|| cx.body(*def, body)));
         match r {
             Ok(j) => {
